@@ -345,10 +345,12 @@ def r10i(ctx: Ctx, only: tuple[str, ...] | None = None) -> list[Ob]:
     method, or of an item assignment: every later reader of the producer's output would see the
     modified values (samples of other variables added twice, outside the domain)."""
     obs: list[Ob] = []
-    for c in _module_classes(ctx):
+    # the query objects evaluate circuits on the caller's tensors: same discipline
+    query_classes = [c for c in ctx.repo.classes.values() if c.module.name == "cirkit.backend.torch.queries"]
+    for c in _module_classes(ctx) + query_classes:
         if only is not None and not any(o in c.qualname for o in only):
             continue
-        for mname in EVAL_METHODS:
+        for mname in tuple(EVAL_METHODS) + (("_layer_fn", "_pad_samples", "scopes_to_mask") if c in query_classes else ()):
             m = c.methods.get(mname)
             if m is None or m.is_abstract:
                 continue
@@ -419,7 +421,7 @@ def r10i(ctx: Ctx, only: tuple[str, ...] | None = None) -> list[Ob]:
             inst = f"inputs-untouched:{mname}"
             if bad:
                 n, what = bad
-                obs.append(viol("R10i", c.qualname, inst, f"{what} a tensor that aliases an argument of {c.name}.{mname}: the argument is the stored output of another module (the address book hands out views), so every later reader of that output sees the modified values", f"{m.module.relpath}:{n.lineno}"))
+                obs.append(viol("R10i", c.qualname, inst, f"{what} a tensor that aliases an argument of {c.name}.{mname}: the argument is the caller's tensor or the stored output of another module (the address book hands out views), so every later reader sees the modified values", f"{m.module.relpath}:{n.lineno}"))
             else:
                 obs.append(ok("R10i", c.qualname, inst, "no in-place update of a value that aliases an argument", m.loc, nontrivial=False))
     return obs
